@@ -335,7 +335,7 @@ impl C08 {
             ("token-sequences", t.pick(60_000, 3_000_000)),
             ("adjacent-pairs", 3000),
             ("keyword-identifiers", 360),
-            ("file-bytes-through-the-binary", t.pick(120, 3_000)),
+            ("file-bytes-through-the-binary", straddles().len() as u64 + t.pick(120, 3_000)),
             ("conservation-directed", DIRECTED_CONSERVATION.len() as u64),
             ("conservation-programs", t.pick(20_000, 500_000)),
             ("conservation-mutants", t.pick(60_000, 2_000_000)),
@@ -389,6 +389,32 @@ impl C08 {
             }
         }
     }
+}
+
+/// (offset, character, how many of its bytes lie in front of the offset, 0 = in a string / 1 = in an identifier / 2 = in a
+/// comment)
+fn straddles() -> &'static Vec<(usize, &'static str, usize, usize)> {
+    static S: std::sync::OnceLock<Vec<(usize, &'static str, usize, usize)>> = std::sync::OnceLock::new();
+    S.get_or_init(|| {
+        let mut v = vec![];
+        for b in [512usize, 1024, 2048, 4096, 8192, 16_384, 32_768, 65_536, 131_072, 196_608, 262_144, 524_288, 1_048_576] {
+            for ch in ["é", "中", "💖"] {
+                for shift in 1..ch.len() {
+                    for place in 0..3 {
+                        // (no emoji in identifiers: it is not a letter)
+                        if place == 1 && ch == "💖" {
+                            continue;
+                        }
+                        if place != 0 && b > 131_072 {
+                            continue;
+                        }
+                        v.push((b, ch, shift, place));
+                    }
+                }
+            }
+        }
+        v
+    })
 }
 
 impl Check for C08 {
@@ -521,6 +547,39 @@ impl Check for C08 {
                     st.sample(&format!("token sequence: {:?}", text));
                 }
                 self.check_sequence(&toks, &seps, st, name);
+            }
+            "file-bytes-through-the-binary" if (i as usize) < straddles().len() => {
+                // a multi-byte character lying across a power-of-two offset of the FILE (a reader that decodes the file
+                // block by block must not cut it in two), inside a string literal, an identifier or a comment
+                let (boundary, ch, shift, place) = straddles()[i as usize];
+                let (head, tail) = match place {
+                    0 => ("stel w = \"ab".to_string(), format!("cd\"; [lengte(w), w, w[2]]")),
+                    1 => ("stel naam_".to_string(), format!("_x = 42; [naam_{}_x, 1]", ch)),
+                    _ => ("stel w = 41 // ab".to_string(), "cd\n; [w + 1, 2]".to_string()),
+                };
+                // comment lines in front, so that `ch` starts `shift` bytes before the boundary
+                let need = boundary - shift - head.len();
+                let mut text = String::with_capacity(boundary + 64);
+                let mut left = need;
+                while left > 0 {
+                    let line = left.min(100);
+                    if line < 4 {
+                        text.push_str(&" ".repeat(line));
+                        break;
+                    }
+                    text.push_str("//");
+                    text.push_str(&"-".repeat(line - 3));
+                    text.push('\n');
+                    left -= line;
+                }
+                text.push_str(&head);
+                debug_assert_eq!(text.len(), boundary - shift);
+                text.push_str(ch);
+                text.push_str(&tail);
+                st.count(&format!("file-straddle:{}", ["string", "identifier", "comment"][place]));
+                st.set_insert("file-straddle-boundaries", &boundary.to_string());
+                st.distinct_hash(crate::rng::hash_str(&text));
+                super::binfile::compare_with_binary(&text, "file-bytes-through-the-binary", st);
             }
             "file-bytes-through-the-binary" => {
                 // a string literal with raw line ends and other raw characters, in a FILE run by the shipped binary: the file
